@@ -878,3 +878,7 @@ mod tests {
         }
     }
 }
+
+#[cfg(feature = "pendulum_project_ntpd_rs_verif")]
+#[path = "/verif/hooks/ntp-proto/time_types.rs"]
+pub mod verif_hooks;
